@@ -170,6 +170,11 @@ def run_c06(ctx):
         sw.combos.append(("g", [0]))
         m.argnames.append("g")
         m.fn = calllog.make_fn(kind, m.argnames)
+    if t.flag(1, 4, "decorated-fn"):
+        # what the user runs is a functools.wraps wrapper whose results differ from the
+        # wrapped function's: the crop must grow the wrapper, not what is underneath
+        m.fn = calllog.make_fn(kind, m.argnames, decorated=True)
+        ctx.stats["decorated-fn"] += 1
     interleaved = rounds > 1 and t.flag(1, 2, "sow-all-first")
     ctx.t("plan", {"crops": rounds, "sow-all-before-reaping": interleaved})
     deferred = []
